@@ -419,13 +419,10 @@ fn replay_mcx(v: &Value) -> i32 {
     let defs = registry::scenarios(prop, tier);
     let Some(def) = defs.iter().find(|d| d.id() == scen) else { eprintln!("unknown scenario {scen}"); return 2 };
     let choices: Vec<u8> = v["choices"].as_array().map(|a| a.iter().map(|c| c.as_u64().unwrap_or(0) as u8).collect()).unwrap_or_default();
-    let out = match mcx::replay_check(&*def.make, &choices) { Ok(o) => o, Err(e) => { eprintln!("ENGINE-ERROR: {e}"); return 2 } };
+    let (out, violations) = match mcx::replay_check(&*def.make, &choices) { Ok(o) => o, Err(e) => { eprintln!("ENGINE-ERROR: {e}"); return 2 } };
     println!("scenario: {scen}\nchoices: {:?}\nterminal: {:?}", choices, out.terminal);
     if let Some(tr) = &out.trace { for l in tr { println!("  {l}") } }
     println!("log: {}", mcx::fmt_log(&out.log));
-    let inst = (def.make)();
-    let violations = (inst.check)(&out);
-    drop(inst.bodies);
     if violations.is_empty() { println!("no violation on this schedule"); 0 } else {
         for (k, d) in violations { println!("VIOLATION property={prop} replay=<this file> kind={k} -- {d}") }
         1
